@@ -193,7 +193,11 @@ def run(ctx: Ctx) -> int:
     n_sym = n_clo = n_traj = n_raise = n_upd = 0
     for scn, rec in zip(scns, recs):
         if "harness_error" in rec:
-            raise MachineryError(f"harness error: {rec['harness_error']}\n{rec['trace']}")
+            # an exception escaping the library while the model is built or queried is the library's answer
+            rep.evaluations += 1
+            rep.mismatch({"c": scn["c"], "idx": scn["idx"], "seed": scn["seed"], "pts": scn["pts"]},
+                         {"what": "exception", "exception": rec["harness_error"], "trace": rec["trace"]}, None)
+            continue
         rep.evaluations += 1
         rep.replayed += 1
         if any(x != 0 for p in scn["pts"] for row in p["jac"] for x in row):
@@ -214,7 +218,7 @@ def run(ctx: Ctx) -> int:
     rep.notes.update({"symbolic_models_conforming": n_sym, "integrator_closures_conforming": n_clo,
                       "models_with_conforming_trajectories": n_traj,
                       "integrator_closures_conforming_after_parameter_update": n_upd, "conversion_raised": n_raise})
-    if n_sym < 30 or n_clo < 30:
+    if (n_sym < 30 or n_clo < 30) and not rep.violations:
         raise MachineryError(f"vacuity: symbolic {n_sym}, closures {n_clo}")
     for s in scns[:2]:
         rep.sample({"content": s["c"], "jacobian_at_initial_state": s["pts"][0]["jac"]})
